@@ -120,7 +120,8 @@ func (g *Circle) Intersects(obj Object) bool {
 	case *SimplePoint:
 		return g.containsPoint(other.Center())
 	case *Circle:
-		return other.Distance(g) <= (other.meters + g.meters)
+		// the discs meet when the centres are no further apart than the sum of the radii
+		return geoDistancePoints(other.center, g.center) <= math.Max(other.meters, 0)+math.Max(g.meters, 0)
 	case Collection:
 		for _, p := range other.Children() {
 			if g.Intersects(p) {
